@@ -320,14 +320,15 @@ func search(t *testing.T, id string) {
 // ---- replay ----------------------------------------------------------------------------------
 
 type replayResult struct {
-	File     string `json:"file"`
-	Property string `json:"property"`
-	Runs     int    `json:"runs"`
-	Fails    int    `json:"fails"`
-	Failure  string `json:"failure,omitempty"`
-	Known    string `json:"known,omitempty"`
-	Harness  string `json:"harness,omitempty"`
-	Slow     bool   `json:"slow,omitempty"`
+	File     string         `json:"file"`
+	Property string         `json:"property"`
+	Runs     int            `json:"runs"`
+	Fails    int            `json:"fails"`
+	Failure  string         `json:"failure,omitempty"`
+	Known    string         `json:"known,omitempty"`
+	Harness  string         `json:"harness,omitempty"`
+	Slow     bool           `json:"slow,omitempty"`
+	Hist     map[string]int `json:"hist,omitempty"`
 }
 
 // TestReplay re-executes saved cases through the same check functions, without rapid.
@@ -373,6 +374,16 @@ func replayMain(t *testing.T) {
 					}
 					res.Slow = res.Slow || o.Slow
 					if o.Fail != "" {
+						if all {
+							if res.Hist == nil {
+								res.Hist = map[string]int{}
+							}
+							first := o.Fail
+							if i := strings.IndexByte(first, '\n'); i >= 0 {
+								first = first[:i]
+							}
+							res.Hist[Trunc(first, 260)]++
+						}
 						res.Fails++
 						if res.Failure == "" {
 							res.Failure = o.Fail
